@@ -97,3 +97,56 @@ Example C05_arr_example :
 Proof. cbv zeta. split; [repeat constructor|]. split; vm_compute; reflexivity. Qed.
 
 (* TREES: appended below *)
+
+(* ------------------------------------------------------------------ *)
+(* The code as it is since the repair of D13: the element shifts are slice::copy_within, checked against
+   the slot slice (Arr/Checked.v).  On invariant states the checked operations ARE the modelled ones, so
+   every theorem above transfers; and the frame property now holds for EVERY state, reachable or not -
+   a length prefix that claims more values than the buffer holds makes the operation panic. *)
+From Stevia Require Import Arr.Checked.
+
+Theorem C05_arr_checked_is_model :
+  forall (pbytes : N) (s : ast) (o : aop), ainv pbytes s -> astep_chk pbytes s o = astep_c pbytes s o.
+Proof. exact astep_chk_eq. Qed.
+Print Assumptions C05_arr_checked_is_model.
+
+Theorem C05_arr_checked_history_is_model :
+  forall (pbytes : N) (pre post : list cell) (nslots : N) (ops : list aop),
+    Forall aop_ok ops ->
+    arun_chk pbytes (ainit_c pre post nslots) ops = arun_c pbytes (ainit_c pre post nslots) ops.
+Proof. exact arun_chk_eq_init. Qed.
+Print Assumptions C05_arr_checked_history_is_model.
+
+Theorem C05_arr_checked_frame_all_states :
+  forall (pbytes : N) (s : ast) (o : aop) (s' : ast) (out : aout) (c : N),
+    astep_chk pbytes s o = Ok (s', out, c) ->
+    apre s' = apre s /\ apost s' = apost s /\ length (aslots s') = (length (aslots s) + ext_of o)%nat.
+Proof. exact astep_chk_frame. Qed.
+Print Assumptions C05_arr_checked_frame_all_states.
+
+Theorem C05_arr_checked_memory_all_states :
+  forall (pbytes : N) (s : ast) (o : aop) (s' : ast) (out : aout) (c : N),
+    astep_chk pbytes s o = Ok (s', out, c) -> is_ext o = false ->
+    length (amem s') = length (amem s) /\
+    (forall a : nat,
+       (a < length (apre s))%nat \/ (length (apre s) + length (aslots s) <= a)%nat ->
+       nth_error (amem s') a = nth_error (amem s) a).
+Proof. exact astep_chk_writes_within_slots. Qed.
+Print Assumptions C05_arr_checked_memory_all_states.
+
+Theorem C05_arr_checked_guard_independent_all_states :
+  forall (pbytes : N) (s1 s2 : ast) (ops : list aop),
+    aslots s1 = aslots s2 -> alen s1 = alen s2 -> arun_chk pbytes s1 ops = arun_chk pbytes s2 ops.
+Proof. exact arun_chk_guard_indep. Qed.
+Print Assumptions C05_arr_checked_guard_independent_all_states.
+
+Theorem C05_arr_checked_history_frame_all_states :
+  forall (pbytes : N) (ops : list aop) (s s' : ast),
+    aexec_chk pbytes s ops = Ok s' ->
+    apre s' = apre s /\ apost s' = apost s /\ length (aslots s') = (length (aslots s) + ext_total ops)%nat.
+Proof. exact aexec_chk_frame. Qed.
+Print Assumptions C05_arr_checked_history_frame_all_states.
+
+(* non-vacuity: on the D13 witness (count 8 over 6 slots) the checked insert panics where the unchecked
+   memmove wrote into the cells behind the slots *)
+Example C05_arr_checked_witness := D13_checked_insert_panics.
